@@ -33,7 +33,7 @@ class Run:
                  't_end', 'post', 'post_sched', 'sd_value', 'pending_at_return',
                  'drain_idle', 'loop_stats', 'choices', 'seq_returned',
                  'seq_shutdown', 'seq_drained', 'harness_error', 'events',
-                 'polls', 'instants')
+                 'polls', 'instants', 'post2')
 
 
 def default_knobs(seed=0):
@@ -145,6 +145,21 @@ def run_spec(spec, knobs, choices=None, poll=True, drain_virtual=40.0):
                                                node.why())
                     except Exception as err:            # pylint: disable=W0703
                         run.post_sched[nid] = ('error', repr(err))
+            run.post2 = None
+            if run.outcome in ('ret', 'exc'):
+                # read-only inspection of the whole tree after the run: what the
+                # predicates say must not change
+                try:
+                    for node in ctx.nodes.values():
+                        if isinstance(node, PureScheduler):
+                            list(node.exit_jobs())
+                            list(node.entry_jobs())
+                            node.check_cycles()
+                            node.stats()
+                    top.list()
+                    run.post2 = poll_nodes(ctx, top)
+                except Exception as err:                # pylint: disable=W0703
+                    run.post2 = {'__error__': ('error', repr(err))}
             if run.outcome in ('ret', 'exc'):
                 # a later explicit shutdown must send nothing more
                 try:
